@@ -61,7 +61,7 @@ prop("C13",
      COMMON_ASSUMPTIONS)
 
 prop("C14",
-     ["DT1", "DT2", "DT3", "DT4", "LN1", "NK2", "SF1", "DL1", "MP3"],
+     ["DT1", "DT2", "DT3", "DT4", "LN1", "NK2", "SF1", "DL1", "MP3", "SD1"],
      "Abstract dtype interpretation of every scale method over dtype witnesses (zero-length arrays, Python-scalar coefficients; NumPy as "
      "oracle of its own promotion rules) against the table read from MultiScaling._compute_scale_dtype, for every scaling class x real "
      "numeric raw dtype (thorough: both byte orders, NumPy-scalar coefficients, all Add/Subtract pairs); dtype source of every empty "
